@@ -226,7 +226,7 @@ def judge_call(c, o, plmn):
     elif plmn is not None and 121 in byid:
         _, nr = fld(tn("UserLocationInformation"), byid[121], "UserLocationInformationNR")
         if nr is None:
-            return "%s: user location information is not NR" % fn
+            return ("%s: user location information is not NR" % fn) if "ies" in ts else None
         _, p1 = path(tn("UserLocationInformationNR"), nr, "NRCGI", "PLMNIdentity", "Value")
         _, p2 = path(tn("UserLocationInformationNR"), nr, "TAI", "PLMNIdentity", "Value")
         checks.append(want("PLMN of the NR CGI", p1["hex"], plmn))
@@ -249,9 +249,9 @@ def plmn_states(calls, results):
 
 
 # ---------------------------------------------------------------------------------------------- generator
-AMF_VALUES = [0, 1, 2 ** 40 - 1, 2 ** 40, 2 ** 40 + 1, -1, 2 ** 32, 2 ** 39, 2 ** 63 - 1, -2 ** 63, 0x1111111111, 255, 256, 65535, 65536]
-RAN_VALUES = [0, 1, 2 ** 32 - 1, 2 ** 32, 2 ** 32 + 1, -1, 2 ** 31, 2 ** 40 - 1, 2 ** 63 - 1, -2 ** 63, 0x22222222, 255, 256, 65535, 65536]
-PDU_VALUES = [0, 1, 255, 256, 257, -1, 91, 15, 16, 511, 2 ** 32 + 5, 10000, -256]
+AMF_VALUES = [0, 2 ** 40 - 1, 2 ** 40, -1, 2 ** 32, 2 ** 40 + 1, 1, 2 ** 39, 2 ** 63 - 1, -2 ** 63, 0x1111111111, 255, 256, 65535, 65536]
+RAN_VALUES = [0, 2 ** 32 - 1, 2 ** 32, -1, 2 ** 40 - 1, 2 ** 31, 1, 2 ** 32 + 1, 2 ** 63 - 1, -2 ** 63, 0x22222222, 255, 256, 65535, 65536]
+PDU_VALUES = [0, 255, 256, -1, 91, 257, 1, 15, 16, 511, 2 ** 32 + 5, 10000, -256]
 NAS_LENS = [0, 1, 2, 3, 127, 128, 129, 255, 256, 1000, 4095, 5000]
 PRINTABLE = "ABCDEFGHIJKLMNOPQRSTUVWXYZabcdefghijklmnopqrstuvwxyz0123456789 '()+,-./:=?"
 PLMNS = ["02f839", "00f110", "214365", "999999", "000000", "ffffff", "13f184"]
@@ -266,7 +266,9 @@ def gen_args(rng, fn, i):
     c = {"fn": fn}
 
     def bnd(lst, rnd_in, rnd_any):
-        if j < 8:
+        if j < 6:                                   # every wrapper sees the bounds and their neighbours
+            return lst[j]
+        if j < 10:
             return lst[(j + 5 * widx) % len(lst)]
         return rnd_any() if rng.chance(1, 5) else rnd_in()
     for k in keys:
@@ -287,7 +289,7 @@ def gen_args(rng, fn, i):
         elif k == "ipv4":
             c[k] = rng.choice(["10.203.204.205", "0.0.0.0", "255.255.255.255", "%d.%d.%d.%d" % tuple(rng.below(256) for _ in range(4))])
         elif k == "ids":
-            lists = [None, [5], [0, 255], [1, 2, 3], [256], [-1], [], [7, 300], list(range(1, 17))]
+            lists = [None, [5], [0, 255], [256], [-1], [], [1, 2, 3], [7, 300], list(range(1, 17))]
             if slot == 2 and j < len(lists):
                 c[k] = lists[j]
             else:
@@ -374,6 +376,7 @@ class Wrappers(Stream):
 class C13(Check):
     pid = "C13"
     prop_files = []
+    extra_targets = ["Model/AperCheck.vo"]
     streams = [Wrappers()]
     trusted = ["refamf/perdec.py (independent X.691 aligned PER decoder over the frozen golden schema)"]
     assumptions = []
